@@ -101,3 +101,27 @@ package checker
 //@   trusted "phase boundary: arbitrary effect, may panic (nothing is assumed about it)"
 //@   maypanic
 //@   modifies *
+
+// ASSUMED (recursive walk over the type graph, not verified): the walk only ADDS
+// to the two bookkeeping sets; started with both empty, what it adds and whether
+// it fails depend only on the node and the type tables
+//@ func (*checkSchema).collectAllowedJsonTypes(node, ss)
+//@   props C04 C09 C11
+//@   trusted "definition of allowsKind/linkFails: the recursive collection of allowed JSON kinds is not verified"
+//@   maypanic
+//@   modifies c.foundTypeNames[*], c.allowedJsonTypes[*]
+//@   defines normal ==> (forall t json.Type :: dom(c.allowedJsonTypes, t) <==> (old(dom(c.allowedJsonTypes, t)) || allowsKind(c.rootSchema, ss, node, t)))
+//@   defines (forall k string :: !old(dom(c.foundTypeNames, k))) ==> (panics <==> linkFails(c.rootSchema, ss, node))
+//@   defines panics ==> errWF(pv)
+
+// C11/C04: the verdict of the link check of a node depends on that node only -
+// both bookkeeping sets are emptied first ("equal inputs give equal results
+// whatever was checked before")
+//@ func (*checkSchema).checkLinksOfNode(node, ss)
+//@   props C04 C09 C11
+//@   requires c != nil && isNode(node) && consReady(node)
+//@   maypanic
+//@   modifies c.foundTypeNames[*], c.allowedJsonTypes[*]
+//@   ensures !hasRule(node, constraint.TypesListConstraintType) ==> normal
+//@   ensures hasRule(node, constraint.TypesListConstraintType) ==> (panics <==> (linkFails(c.rootSchema, ss, node) || !allowsKind(c.rootSchema, ss, node, jtypeOf(node))))
+//@   ensures panics ==> errWF(pv)
